@@ -97,6 +97,8 @@ type Term struct {
 	bk   uint8 // bounds cache: 0 unknown, 1 computed
 	lo   uint64
 	hi   uint64
+	orig *Term // hex character produced from this byte (see hexOfBytes)
+	origHi bool
 }
 
 func (t *Term) IsConst() bool { return t.Op == OpConst }
